@@ -345,6 +345,55 @@ let cmd_read (toks : string list) : string =
     obj fields
   | _ -> "EXN read args"
 
+
+(* ---------- single boxes (decode-first codec run) ---------- *)
+let rec jtree (t : tree) : string =
+  match t with
+  | TNum n -> "[\"num\"," ^ jn n ^ "]"
+  | TInt z -> "[\"int\"," ^ jz z ^ "]"
+  | TBool b -> "[\"bool\"," ^ jb b ^ "]"
+  | TStr s -> "[\"str\"," ^ jbytes s ^ "]"
+  | TFourCC c -> "[\"fourcc\"," ^ jn c ^ "]"
+  | TList l -> "[\"list\"," ^ jl jtree l ^ "]"
+  | TNone -> "[\"none\"]"
+  | TSome t -> "[\"some\"," ^ jtree t ^ "]"
+  | TEnum n -> "[\"enum\"," ^ jstr n ^ "]"
+  | TRec (n, fs) -> "[\"rec\"," ^ jstr n ^ "," ^ jl (fun (f, v) -> "[" ^ jstr f ^ "," ^ jtree v ^ "]") fs ^ "]"
+  | TTuple l -> "[\"tuple\"," ^ jl jtree l ^ "]"
+
+let cmd_box (toks : string list) : string =
+  match toks with
+  | [md; data] ->
+    let m = mode_of md in
+    let data = bytes_of_hex data in
+    let fuel = nat_of_int (List.length data + 2) in
+    let (res, s') = run (dec_box_any fuel m) (stream_at data N0) in
+    (match res with
+     | Ok ((name, size), ob) ->
+       let base = [kv "hdr" "\"ok\""; kv "name" (jn (u32_of_boxtype name)); kv "hsize" (jn size)] in
+       (match ob with
+        | None -> obj (base @ [kv "dec" "\"unsupported\""])
+        | Some b ->
+          let enc = enc_any m b in
+          let bytes = wout enc in
+          let fin = wfin enc in
+          let re = (match fin with
+              | Ok _ ->
+                let (r2, s2) = run (dec_box_any (nat_of_int (List.length bytes + 2)) m) (stream_at bytes N0) in
+                (match r2 with
+                 | Ok ((_, _), Some b2) -> [kv "dec2" "\"ok\""; kv "pos2" (jn s2.s_pos); kv "val2" (jtree (show_any b2))]
+                 | Ok ((_, _), None) -> [kv "dec2" "\"unsupported\""]
+                 | r -> [kv "dec2" (rclass_str r)])
+              | _ -> []) in
+          obj (base @ [kv "dec" "\"ok\""; kv "pos" (jn s'.s_pos); kv "val" (jtree (show_any b)); kv "size" (jn (size_any b));
+                       kv "type" (jn (u32_of_boxtype (type_any b))); kv "enc" (rclass_str fin);
+                       kv "ret" (match fin with Ok n -> jn n | _ -> "null"); kv "bytes" (jbytes bytes)] @ re))
+     | Err EIo -> obj [kv "hdr" "\"ok?\""; kv "dec" "\"io\""; kv "pos" (jn s'.s_pos)]
+     | Err _ -> obj [kv "hdr" "\"ok?\""; kv "dec" "\"data\""; kv "pos" (jn s'.s_pos)]
+     | Panic s -> obj [kv "hdr" "\"ok?\""; kv "dec" "\"panic\""; kv "site" (jstr s)]
+     | OutOfFuel -> obj [kv "hdr" "\"ok?\""; kv "dec" "\"oof\""])
+  | _ -> "EXN box args"
+
 (* ---------- commands ---------- *)
 let handle (line : string) : string =
   match String.split_on_char ' ' line with
@@ -385,6 +434,7 @@ let handle (line : string) : string =
   | "isofile" :: rest -> cmd_isofile rest
   | "lookup" :: rest -> cmd_lookup rest
   | "read" :: rest -> cmd_read rest
+  | "box" :: rest -> cmd_box rest
   | ["ping"] -> "pong"
   | _ -> "EXN unknown command"
 
